@@ -141,7 +141,7 @@ pub trait BlsSignCrypt:
     fn create_decryption_share(
         share: &Self::SecretKeyShare,
         u: Self::PublicKey,
-    ) -> BlsResult<Self::SignatureShare> {
+    ) -> BlsResult<Self::PublicKeyShare> {
         let sk = share.as_field_element::<<Self::PublicKey as Group>::Scalar>()?;
         if sk.is_zero().into() {
             return Err(BlsError::InvalidInputs("share is zero".to_string()));
@@ -154,8 +154,9 @@ pub trait BlsSignCrypt:
         let sig = u * sk;
         debug_assert_eq!(sig.is_identity().unwrap_u8(), 0u8);
         let sig_bytes = sig.to_bytes();
+        // The share is `u * sk`, a point of the public key group
         let mut sig_share =
-            <Self as Pairing>::SignatureShare::empty_share_with_capacity(sig_bytes.as_ref().len());
+            <Self as Pairing>::PublicKeyShare::empty_share_with_capacity(sig_bytes.as_ref().len());
         *sig_share.identifier_mut() = share.identifier();
         sig_share
             .value_mut(sig_bytes.as_ref())
